@@ -61,7 +61,7 @@ pub fn repeat_methods(rng: &mut Rng, ops: &mut [BOp]) {
 fn gen_op(rng: &mut Rng) -> BOp {
     loop {
         let op = match rng.below(40) {
-            0..=3 => Some(BOp::BeginFunction { explicit_id: rng.chance(1, 3), control: rng.below(16) as u32 }),
+            0..=3 => Some(BOp::BeginFunction { explicit_id: rng.chance(1, 3), control: rng.below(256) as u32 }),
             4..=7 => Some(BOp::EndFunction),
             8..=9 => Some(BOp::Parameter),
             10..=14 => Some(BOp::BeginBlock { explicit_id: rng.chance(1, 3) }),
@@ -381,7 +381,7 @@ impl Property for C12 {
                 match (fopen, bopen) {
                     (false, _) => {
                         if rng.chance(1, 2) {
-                            BOp::BeginFunction { explicit_id: rng.chance(1, 4), control: rng.below(16) as u32 }
+                            BOp::BeginFunction { explicit_id: rng.chance(1, 3), control: rng.below(256) as u32 }
                         } else {
                             gen_call(rng, MClass::ModuleLevel).unwrap_or(BOp::Id)
                         }
